@@ -53,10 +53,9 @@ pub fn replay(args: &[String]) {
             _ => unesc(r["text"].as_str().unwrap()),
         };
         // progress marker so that the driver can name the input that killed the process
-        if idx % 512 == 0 {
-            out.line(&json!({"at": idx}));
-            out.flush();
-        }
+        // progress marker so that the driver can name the input that killed the process
+        out.line(&json!({"at": idx}));
+        out.flush();
         n += 1;
         if let Err(what) = exercise(&text) {
             bad += 1;
